@@ -1,14 +1,11 @@
 SPECIFICATION Spec
 CONSTANT MaxN = 3
-CONSTANT T = 3
+CONSTANT T = 4
 CONSTANT Sizes = {16, 48}
 CONSTANT Aligns = {16, 64}
 CONSTANT Eqs = {0}
 CONSTANT MaxAddr = 100000
 CONSTANT AddrStep = 1
-CONSTANT MaxIters = {0, 3}
-CONSTANT MemLimits = {0, 100000}
-CONSTANT MinImprove = 2
-CONSTANT MaxStuck = 1
-CONSTANT Guarded = TRUE
+PROPERTY Refines
+INVARIANT InvFold
 CHECK_DEADLOCK FALSE
